@@ -21,6 +21,8 @@ pub enum Op {
     Marked(Vec<i32>),
     /// metamorphic law count(A) = count(A,x) + count(A,-x) (no truth table needed)
     Law(Vec<i32>, i32),
+    /// incremental SAT with one mark vector and changing (sub-)roots; None = the real root
+    SatSub(Vec<(Vec<i32>, Option<usize>)>),
 }
 
 pub fn all_partial(n: u32) -> Vec<Vec<i32>> {
@@ -137,6 +139,33 @@ pub fn run_op(d: &mut Ddnnf, op: &Op, s: &mut String) {
                 Err(e) => writeln!(s, "panic {}", e).unwrap(),
             }
         }
+        Op::SatSub(steps) => {
+            let txt: Vec<String> = steps
+                .iter()
+                .map(|(a, r)| format!("{} @ {}", join(a), r.map(|x| x.to_string()).unwrap_or("root".into())))
+                .collect();
+            writeln!(s, "op satsub {}", txt.join(" ; ")).unwrap();
+            let res = guarded(|| {
+                let mut mark = ddnnife::ddnnf::anomalies::sat::new_sat_mark_state(d.nodes.len());
+                let mut out = Vec::new();
+                let mut fresh = Vec::new();
+                let mut acc: Vec<i32> = Vec::new();
+                for (a, r) in steps {
+                    out.push(d.sat_propagate(a, &mut mark, *r) as u8);
+                    acc.extend(a.iter().copied());
+                    let mut m2 = ddnnife::ddnnf::anomalies::sat::new_sat_mark_state(d.nodes.len());
+                    fresh.push(d.sat_propagate(&acc, &mut m2, *r) as u8);
+                }
+                (out, fresh)
+            });
+            match res {
+                Ok((r, f)) => {
+                    writeln!(s, "r {}", join(&r)).unwrap();
+                    writeln!(s, "fresh {}", join(&f)).unwrap();
+                }
+                Err(e) => writeln!(s, "panic {}", e).unwrap(),
+            }
+        }
         Op::Law(a, x) => {
             writeln!(s, "op law {} | {}", join(a), x).unwrap();
             let mut ax = a.clone();
@@ -200,6 +229,19 @@ fn ops_for(kind: &str, inp: &Input, rng: &mut Rng, quick: bool) -> Vec<Op> {
                     })
                     .collect();
                 ops.push(Op::SatInc(steps));
+            }
+            // chains whose (sub-)root changes between calls, as the t-wise sampler uses them
+            for _ in 0..(if quick { 6 } else { 30 }) {
+                let k = 2 + rng.below(3) as usize;
+                let steps: Vec<(Vec<i32>, Option<usize>)> = (0..k)
+                    .map(|i| {
+                        let len = 1 + rng.below(2) as usize;
+                        let a = random_list(rng, n, len, true);
+                        let root = if i + 1 == k || rng.chance(1, 3) { None } else { Some(usize::MAX) };
+                        (a, root)
+                    })
+                    .collect();
+                ops.push(Op::SatSub(steps));
             }
         }
         "c04" => {
@@ -316,9 +358,81 @@ fn run_corpus(ctx: &Ctx, out: &mut dyn Write) {
     }
 }
 
+/// C04 on models whose count exceeds f64::MAX (> 1024 free features): the expected table is a
+/// closed form (small formula x 2^free), computed with exact integers and rationals here
+fn huge_count_tables(ctx: &Ctx, out: &mut dyn Write) {
+    use crate::gen::*;
+    use num::{BigInt, BigRational, ToPrimitive};
+    let mut rng = Rng::new(ctx.seed ^ 0x5eed_04b1);
+    let cases = if ctx.tier == "thorough" { 6 } else { 2 };
+    for k in 0..cases {
+        let nv = 2 + rng.below(3) as u32;
+        let mut small = Vec::new();
+        let mut ms = Vec::new();
+        for _ in 0..50 {
+            let m = 1 + rng.below(nv as u64) as usize;
+            small = random_cnf(&mut rng, nv, m, 3);
+            ms = models(&small, nv);
+            if !ms.is_empty() {
+                break;
+            }
+        }
+        if ms.is_empty() {
+            continue;
+        }
+        let n = 1030 + rng.below(900) as u32;
+        let opts = Opts::random(&mut rng, nv);
+        let dag = match compile(&small, &opts) {
+            Some(d) => d,
+            None => continue,
+        };
+        let lines = emit_d4(&dag, &opts, &mut rng);
+        let free = (n - nv) as usize;
+        let total = BigInt::from(ms.len()) << free;
+        let mut s = String::new();
+        writeln!(s, "case c04-huge-{} C04", k).unwrap();
+        writeln!(s, "info small formula over {} features + {} free features (count > f64::MAX)", nv, free).unwrap();
+        writeln!(s, "n {}", n).unwrap();
+        s.push_str(&file_block("d4", &lines));
+        match load(&lines, Some(n)) {
+            Err(e) => writeln!(s, "impl panic {}", e).unwrap(),
+            Ok(mut d) => {
+                writeln!(s, "bigcircuit {}", d.nodes.len()).unwrap();
+                let exp: Vec<String> = (1..=n)
+                    .map(|v| {
+                        let card = if v <= nv {
+                            BigInt::from(ms.iter().filter(|&&m| (m >> (v - 1)) & 1 == 1).count()) << free
+                        } else {
+                            total.clone() >> 1
+                        };
+                        let ratio = BigRational::new(card.clone(), total.clone()).to_f64().unwrap();
+                        format!("{}:{}:{:.10e}", v, card, ratio)
+                    })
+                    .collect();
+                writeln!(s, "op tablex").unwrap();
+                match guarded(|| {
+                    d.card_of_each_feature()
+                        .map(|(v, c, r)| format!("{}:{}:{:.10e}", v, c, r))
+                        .collect::<Vec<String>>()
+                }) {
+                    Ok(r) => writeln!(s, "r {}", r.join(" ")).unwrap(),
+                    Err(e) => writeln!(s, "panic {}", e).unwrap(),
+                }
+                writeln!(s, "fresh {}", exp.join(" ")).unwrap();
+                writeln!(s, "clean 1").unwrap();
+            }
+        }
+        writeln!(s, "end").unwrap();
+        out.write_all(s.as_bytes()).unwrap();
+    }
+}
+
 pub fn run(kind: &str, ctx: &Ctx, out: &mut dyn Write) {
     if kind == "corpus" {
         return run_corpus(ctx, out);
+    }
+    if kind == "c04" {
+        huge_count_tables(ctx, out);
     }
     let mut rng = Rng::new(ctx.seed ^ 0x5eed_0002);
     let quick = ctx.tier != "thorough";
@@ -353,6 +467,19 @@ pub fn run(kind: &str, ctx: &Ctx, out: &mut dyn Write) {
                 core.sort();
                 writeln!(s, "impl core {}", join(&core)).unwrap();
                 for op in ops_for(kind, &inp, &mut rng, quick) {
+                    let op = match op {
+                        Op::SatSub(steps) => {
+                            // pick live (count > 0) nodes as sub-roots
+                            let live: Vec<usize> = (0..d.nodes.len()).filter(|&i| d.nodes[i].count > num::BigInt::from(0)).collect();
+                            Op::SatSub(
+                                steps
+                                    .into_iter()
+                                    .map(|(a, r)| (a, r.map(|_| *rng.pick(&live))))
+                                    .collect(),
+                            )
+                        }
+                        o => o,
+                    };
                     run_op(&mut d, &op, &mut s);
                 }
             }
